@@ -412,7 +412,12 @@ class Walker:
         self._branch(n["b"], take, depth, bi)
         for ei in n["ei"]:
             bi += 1
-            self.stmt("elseif", PCOND[ei["pc"] % len(PCOND)] if dead and ei.get("pc") is not None
+            # a condition that is never evaluated may be anything: in a skipped region, and behind a branch of this
+            # construct that was already taken
+            late = bool(self.render and self.interp and active and found)
+            if late and ei.get("pc") is not None:
+                self.stats["kinds"].add("poison-elseif-after-taken-branch")
+            self.stmt("elseif", PCOND[ei["pc"] % len(PCOND)] if (dead or late) and ei.get("pc") is not None
                       else tx_expr(ei["e"]), "mid", n)
             take = False
             if self.interp and active and not found:
